@@ -183,7 +183,12 @@ func injectLoops(repo, rel string, items []*Item, warn func(string)) (map[string
 				if g.After {
 					p += len(g.Pattern)
 				}
-				edits = append(edits, edit{off: p, end: p, text: " " + desugarStmt(g.Stmt) + "; "})
+				sep := " "
+				if g.After {
+					sep = "; "
+				}
+				stmt := ghostStmt(g.Stmt, it.Logical)
+				edits = append(edits, edit{off: p, end: p, text: sep + stmt + "; "})
 			}
 		}
 		if len(edits) == 0 {
